@@ -251,15 +251,17 @@ func (c *Ctx) ruleR04c(rule string) {
 				return
 			}
 			cnt[r]++
-			node, err := p.eval(r.Results[0]), p.eval(r.Results[2])
-			switch {
-			case node == nsNonNil && err == nsNil, node == nsNil && err == nsNonNil:
-			case node == nsNil && err == nsNil:
-				bad[r] = "returns neither a node nor an error"
-			case node == nsNonNil && err == nsNonNil:
-				bad[r] = "returns both a node and an error"
-			default:
-				bad[r] = fmt.Sprintf("returns node=%s error=%s: the leaf contract 'a node xor an error' is not established on some path", node, err)
+			for _, pr := range c.nodeErrPairs(p, r, 0, 2, 0) {
+				node, err := pr[0], pr[1]
+				switch {
+				case node == nsNonNil && err == nsNil, node == nsNil && err == nsNonNil:
+				case node == nsNil && err == nsNil:
+					bad[r] = "returns neither a node nor an error"
+				case node == nsNonNil && err == nsNonNil:
+					bad[r] = "returns both a node and an error"
+				default:
+					bad[r] = fmt.Sprintf("returns node=%s error=%s: the leaf contract 'a node xor an error' is not established on some path", node, err)
+				}
 			}
 		})
 		if !complete {
@@ -512,4 +514,38 @@ func mentions(v, target ssa.Value, depth int) bool {
 		}
 	}
 	return false
+}
+
+// nodeErrPairs: the (node, error) nil-states a return can deliver on this path. When both results are handed on from
+// one call of a library helper (return noMatch(pos, err)) the pairs are those of the helper's own returns, evaluated
+// with what is known about the arguments.
+func (c *Ctx) nodeErrPairs(p *pathState, r *ssa.Return, ni, ei int, depth int) [][2]nilState {
+	e0, ok0 := r.Results[ni].(*ssa.Extract)
+	e1, ok1 := r.Results[ei].(*ssa.Extract)
+	if ok0 && ok1 && e0.Tuple == e1.Tuple && e0.Index == ni && e1.Index == ei && depth < 3 {
+		if cl, ok := e0.Tuple.(*ssa.Call); ok {
+			if h := cl.Call.StaticCallee(); h != nil && !cl.Call.IsInvoke() && c.P.InLib(h) && len(h.Blocks) > 0 && h.Signature.Results().Len() == len(r.Results) && !ssax.IsParserSig(h.Signature) {
+				init := map[ssa.Value]nilState{}
+				for i, prm := range h.Params {
+					if i < len(cl.Call.Args) {
+						if st := p.eval(cl.Call.Args[i]); st != nsUnknown {
+							init[prm] = st
+						}
+					}
+				}
+				var out [][2]nilState
+				ok := walkPathsInit(h, init, isReturn, func(q *pathState, in ssa.Instruction) {
+					hr := in.(*ssa.Return)
+					if len(hr.Results) != len(r.Results) {
+						return
+					}
+					out = append(out, c.nodeErrPairs(q, hr, ni, ei, depth+1)...)
+				})
+				if ok && len(out) > 0 {
+					return out
+				}
+			}
+		}
+	}
+	return [][2]nilState{{p.eval(r.Results[ni]), p.eval(r.Results[ei])}}
 }
